@@ -223,6 +223,7 @@ def craft_echo(node, dst_ip: str, ttl: int):
     return bool(nic.send_frame(frame))
 
 
+N_TOPOS = 6
 DOMAIN = "c08.example"
 KINDS = ["ping", "dns", "web", "db", "ftp", "ntp"]
 SERVER_SW = {"dns": ["dns-server"], "web": ["dns-server", "web-server"], "db": ["database-service"], "ftp": ["ftp-server"],
@@ -355,7 +356,7 @@ def pair_builder(topo: List[Dict[str, Any]]) -> Callable[[str, str], Tuple[Any, 
     return build
 
 
-def run_frames(rec: rf.FwdRecorder, scene: rf.Scene, topo: List[Dict[str, Any]], label: str, ttls: List[int], dsts: List[int],
+def run_frames(rec: rf.FwdRecorder, game, scene: rf.Scene, topo: List[Dict[str, Any]], label: str, ttls: List[int], dsts: List[int],
                chk: common.Check) -> List[Dict[str, Any]]:
     """Every frame (emitter, dst, ttl) of the model on the real network, cold and warm."""
     out: List[Dict[str, Any]] = []
@@ -377,6 +378,7 @@ def run_frames(rec: rf.FwdRecorder, scene: rf.Scene, topo: List[Dict[str, Any]],
                     rec.start(scene)
                     st, val = guarded(lambda: craft_echo(node, dip, t))
                     rec.stop()
+                    guarded(lambda: tick(game))  # link loads return to zero (an aborted delivery leaves its load behind)
                     if st != "ok":
                         stim["exception"] = str(val)
                         out.append({"cfg": scene.cfg("exchange"),
@@ -388,26 +390,100 @@ def run_frames(rec: rf.FwdRecorder, scene: rf.Scene, topo: List[Dict[str, Any]],
 
 
 def fwd_sig(tr, event, stuck):
-    st = (stuck or {}).get("st") or {}
+    """module / event / clause are added by judge_traces; here: what kind of node, what kind of frame, which family."""
     nodes = tr["cfg"]["nodes"]
 
     def kind_of(i):
         return nodes[i - 1]["kind"] if isinstance(i, int) and 0 < i <= len(nodes) else ""
 
+    scen = (tr.get("stimulus") or {}).get("scenario", "")
     sig = {
         "mode": tr["cfg"]["mode"],
         "frame_kind": (tr.get("meta") or {}).get("kind", "").split("/")[0],
         "node_kind": kind_of(event.get("node", 0)),
-        "scenario": (tr.get("stimulus") or {}).get("scenario", "")[:24],
+        "family": "model" if "#" in scen else scen[:24],
     }
     if event.get("ev") == "Exchange":
         sig["warm"] = bool(event.get("acc"))
-        sig["exchange"] = event.get("kind")
     if event.get("ev") in ("Raised", "Hang"):
-        sig["exception"] = str((tr.get("stimulus") or {}).get("exception", ""))[:60]
-    if isinstance(st, dict) and "phase" in st:
-        sig["phase"] = st["phase"]
+        sig["exception"] = str((tr.get("stimulus") or {}).get("exception", ""))[:70]
     return sig
+
+
+def routes_selftest(chk: common.Check):
+    """Every kind of wrong answer of a look-up must be rejected by RoutesTrace with the right clause (vacuity / binding)."""
+    import copy
+
+    good = {"cfg": {"routes": [{"net": 128, "plen": 2, "hop": 1, "metric": 0}, {"net": 160, "plen": 4, "hop": 2, "metric": 1},
+                               {"net": 167, "plen": 4, "hop": 1, "metric": 0}], "dflt": 2},
+            "ev": [{"ev": "Lookup", "dst": 165, "chosen": 3, "usedDefault": False, "hop": 1}]}
+
+    def mut(**kw):
+        m = copy.deepcopy(good)
+        m["ev"][0].update(kw)
+        return m
+
+    cases = [
+        (good, None),
+        (mut(chosen=2, hop=2), "ChosenIsBest"),  # the higher-metric twin
+        (mut(chosen=1), "ChosenIsBest"),  # a shorter prefix
+        (mut(chosen=0, usedDefault=True, hop=2), "ChosenIsBest"),  # the default although a route matches
+        (mut(dst=70, chosen=0, usedDefault=True, hop=2), None),  # nothing matches: the default route is right
+        (mut(dst=70, chosen=0, usedDefault=False, hop=0), "ChosenIsBest"),  # ... and "no route" is wrong
+        (mut(hop=2), "HopIsRoutes"),
+    ]
+    res = tlc.validate("RoutesTrace", [c for c, _ in cases])
+    for (c, want), (reached, length), stuck in zip(cases, res["results"], res["stuck"]):
+        got = None if reached == length + 1 else ",".join((stuck or {}).get("fail") or ["?"])
+        if got != want:
+            raise RuntimeError(f"RoutesTrace self-test: {c['ev']} gave {got}, expected {want}")
+    chk.cov.setdefault("clause_selftest", {})["RoutesTrace"] = f"{len(cases)} hand-made look-ups judged as expected"
+
+
+def forwarding_selftest(chk: common.Check, traces: List[Dict[str, Any]], res: Dict[str, Any]):
+    """Corrupt one accepted routed frame walk / exchange per clause; each corruption must be rejected by that clause."""
+    import copy
+
+    walk = exch = None
+    for t, (reached, length) in zip(traces, res["results"]):
+        if reached != length + 1:
+            continue
+        names = [e["ev"] for e in t["ev"]]
+        nodes = t["cfg"]["nodes"]
+        if (walk is None and t["cfg"]["mode"] == "frame" and names[:3] == ["Emit", "IfaceRecv", "Forward"] and names[-1] == "Deliver"
+                and nodes[t["ev"][0]["node"] - 1]["kind"] == "host" and t["ev"][0]["nh"] == nodes[t["ev"][0]["node"] - 1]["gw"]
+                and nodes[t["ev"][1]["node"] - 1]["kind"] == "router"):
+            walk = t
+        if exch is None and t["cfg"]["mode"] == "exchange" and t["ev"][0]["ev"] == "Exchange" and t["ev"][0]["perm"] and t["ev"][0]["ok"]:
+            exch = t
+    if walk is None or exch is None:
+        raise RuntimeError("forwarding self-test: no accepted routed frame walk / permitted exchange to corrupt")
+
+    def mut(base, i, **kw):
+        m = {"cfg": base["cfg"], "ev": copy.deepcopy(base["ev"])}
+        m["ev"][i].update(kw)
+        return m
+
+    e = walk["ev"]
+    last = len(e) - 1
+    other = next(i + 1 for i, n in enumerate(walk["cfg"]["nodes"]) if n["kind"] == "host" and i + 1 != e[last]["node"])
+    cases = [
+        (mut(walk, 0, nh=e[0]["nh"] + 1), "HostsUseDefaultGatewayOffLink"),
+        (mut(walk, 1, ta=e[1]["tb"]), "TtlLowersAtEveryHop"),
+        (mut(walk, 1, ta=0), "ExhaustedIsDropped"),
+        (mut(walk, 1, ta=e[1]["tb"] + 1), "TtlNeverRises"),
+        (mut(walk, 2, nh=e[2]["nh"] + 1), "ForwardedViaBestRoute"),
+        (mut(walk, 2, node=e[0]["node"]), "OnlyRoutersForward"),
+        (mut(walk, last, node=other), "DeliveredOnlyAtOwner"),
+        (mut(exch, 0, ok=False), "PermittedExchangeSucceeds"),
+        (mut(exch, 0, ev="Hang"), "NoException"),
+    ]
+    r = tlc.validate("ForwardingTrace", [c for c, _ in cases])
+    for (c, want), (reached, length), stuck in zip(cases, r["results"], r["stuck"]):
+        fail = (stuck or {}).get("fail") or []
+        if reached == length + 1 or want not in fail:
+            raise RuntimeError(f"ForwardingTrace self-test: corruption for {want} gave reached={reached}/{length} fail={fail}")
+    chk.cov.setdefault("clause_selftest", {})["ForwardingTrace"] = f"{len(cases)} corrupted traces each rejected by the intended clause"
 
 
 def check_scene(scene: rf.Scene, topo: List[Dict[str, Any]]):
@@ -422,6 +498,24 @@ def check_scene(scene: rf.Scene, topo: List[Dict[str, Any]]):
             continue
         if g["ifs"] != e["ifs"] or g["gw"] != e["gw"] or g["routes"] != e["routes"] or g["dflt"] != e["dflt"]:
             raise RuntimeError(f"scene mismatch for {e['name']}:\n built {g}\n model {e}")
+
+
+def extra_builder(cfg: Dict[str, Any]) -> Callable[[str, str], Tuple[Any, rf.Scene]]:
+    def build(s: str, d: str):
+        game = scenarios.build(rf.with_roles(cfg, clients=[s], servers=[d]))
+        scene = rf.Scene(game.simulation.network)
+        tick(game)
+        return game, scene
+
+    return build
+
+
+def extra_scenes() -> List[Tuple[str, Dict[str, Any], List[str]]]:
+    """Hand-written small networks beyond the model's topologies (all devices permit everything)."""
+    return [
+        ("firewalled-dmz", scenarios.firewalled(dmz=True), ["ext", "int", "dmz"]),
+        ("wireless-wan", scenarios.test_asset("wireless_wan_network_config.yaml"), ["pc_a", "pc_b"]),
+    ]
 
 
 def topo_label(topo) -> str:
@@ -450,7 +544,7 @@ def main(tier: str, seed: int) -> int:
     f = tlc.mc("MC_Forwarding", timeout=1200)
     if not f["ok"]:
         chk.violation({"module": "MC_Forwarding", "clause": str(f["violation"])}, {"tlc": f["output_tail"]})
-    chk.add_mc("MC_Forwarding(4 topologies incl. routing loop, ttl in {1,2,3,4,64}, safety + liveness)", f)
+    chk.add_mc("MC_Forwarding(6 topologies incl. 2- and 3-router routing loops, ttl in {1,2,3,4,64}, safety + liveness)", f)
     for act in ("MEmit", "MSwitch", "MRecv", "MLost", "MLocal", "MDeliver", "MForward", "MDrop"):
         if f["coverage"].get(act, (0, 0))[1] == 0:
             raise tlc.TLCError(f"vacuous model: action {act} never taken")
@@ -495,6 +589,7 @@ def main(tier: str, seed: int) -> int:
     rtraces = replay_routes(cases, chk)
     chk.cov["routes_replay_s"] = round(time.time() - t0, 1)
     res = tlc.validate("RoutesTrace", rtraces, chunk=4000, parallel=8, timeout=2400)
+    routes_selftest(chk)
     common.judge_traces(chk, "Routes", rtraces, res, routes_sig)
     for tr in rtraces[200:202]:
         chk.sample({"cfg": tr["cfg"], "events": tr["ev"], "meta": tr["meta"]})
@@ -514,8 +609,8 @@ def main(tier: str, seed: int) -> int:
         if len(b) > 1:
             s1 = b[1]["state"]
             model_frames.add((topo_label(tp), s1["origin"], s1["dst"], s1["ttl0"]))
-    if len(topos) < 4:
-        raise tlc.TLCError(f"TLC -simulate visited only {len(topos)} of the 4 topologies of MC_Forwarding")
+    if len(topos) < N_TOPOS:
+        raise tlc.TLCError(f"TLC -simulate visited only {len(topos)} of the {N_TOPOS} topologies of MC_Forwarding")
     rec = rf.FwdRecorder()
     rec.install()
     ftraces: List[Dict[str, Any]] = []
@@ -527,9 +622,9 @@ def main(tier: str, seed: int) -> int:
         scene = rf.Scene(game.simulation.network, order=[n["name"] for n in topo])
         check_scene(scene, topo)
         owned = sorted({f["addr"] for n in topo if n["kind"] != "switch" for f in n["ifs"]})
-        dsts = owned + [30, 45, 133, 200]
+        dsts = owned + [30, 45, 78, 133, 200]
         tick(game)
-        ftraces += run_frames(rec, scene, topo, label, ttls, dsts, chk)
+        ftraces += run_frames(rec, game, scene, topo, label, ttls, dsts, chk)
         for i, n in enumerate(topo):
             if n["kind"] != "switch":
                 for d in dsts:
@@ -537,16 +632,20 @@ def main(tier: str, seed: int) -> int:
                         emitted.add((label, i + 1, d, t))
         hosts = [n["name"] for n in topo if n["kind"] == "host"]
         ftraces += run_exchanges(rec, pair_builder(topo), hosts, KINDS, label, chk)
+    for label, cfg, hosts in extra_scenes():
+        ftraces += run_exchanges(rec, extra_builder(cfg), hosts, KINDS, label, chk)
     missing = [m for m in model_frames if m not in emitted]
     if missing:
         raise tlc.TLCError(f"frames of MC_Forwarding behaviours that the harness did not emit: {missing[:5]}")
     chk.cov["model_frames_seen_in_behaviours"] = len(model_frames)
 
     if deep:
-        ftraces += run_shipped(rec, chk)
+        ftraces += run_shipped(rec, chk, "multi_lan_internet_network_example")
+        ftraces += run_shipped(rec, chk, "data_manipulation", via_env=True)
 
     res = tlc.validate("ForwardingTrace", ftraces, chunk=1500, parallel=8, timeout=2400)
-    common.judge_traces(chk, "Forwarding", ftraces, res, fwd_sig)
+    forwarding_selftest(chk, ftraces, res)
+    common.judge_traces(chk, "Forwarding", ftraces, res, fwd_sig, selftest="ForwardingTrace")
     shown = 0
     for tr in ftraces:
         if tr["cfg"]["mode"] == "frame" and len(tr["ev"]) >= 8 and shown < 2:
@@ -570,28 +669,42 @@ def main(tier: str, seed: int) -> int:
     return chk.finish()
 
 
-def run_shipped(rec: rf.FwdRecorder, chk: common.Check) -> List[Dict[str, Any]]:
-    """The shipped multi-router scenario: PrimaiteGame.step() and pings between all its hosts (safety clauses only)."""
+def run_shipped(rec: rf.FwdRecorder, chk: common.Check, label: str, via_env: bool = False) -> List[Dict[str, Any]]:
+    """A shipped scenario: game steps (PrimaiteGame.step(), or PrimaiteGymEnv.step(0) when the scenario has a proxy
+    agent) and pings between all its hosts (safety clauses only: the scenario's own ACLs are not modelled)."""
+    import copy
+
     from primaite.simulator.network.hardware.nodes.host.host_node import HostNode
 
     out: List[Dict[str, Any]] = []
-    label = "multi_lan_internet_network_example"
-    game = scenarios.build(scenarios.shipped("multi_lan_internet_network_example.yaml"))
+    cfg = scenarios.shipped(label + ".yaml")
+    if via_env:
+        from primaite.session.environment import PrimaiteGymEnv
+
+        env = PrimaiteGymEnv(env_config=copy.deepcopy(cfg))
+        env.reset(seed=chk.seed)
+        game = env.game
+        step = lambda: env.step(0)  # noqa: E731
+    else:
+        game = scenarios.build(cfg)
+        step = game.step
     scene = rf.Scene(game.simulation.network)
     hosts = [n.config.hostname for n in scene.keep if isinstance(n, HostNode)]
-    rec.start(scene)
-    for _ in range(3):
-        st, val = guarded(lambda: game.step(), 60)
-        if st != "ok":
-            out.append({"cfg": scene.cfg("exchange"), "ev": [rf.blank(st, kind="step")], "meta": {"kind": "step", "scenario": label},
-                        "stimulus": {"scenario": label, "exception": str(val)}})
-            break
-    rec.stop()
-    out += rec.take(stimulus={"scenario": label, "kind": "game.step x3"})
-    out += run_exchanges(rec, lambda s, d: (game, scene), hosts, ["ping"], label, chk, perm_all=False)
-    rec.start(scene)
-    for _ in range(3):
-        guarded(lambda: game.step(), 60)
-    rec.stop()
-    out += rec.take(stimulus={"scenario": label, "kind": "game.step x3 (after pings)"})
+
+    def steps(tag):
+        rec.start(scene)
+        for _ in range(3):
+            st, val = guarded(step, 60)
+            if st != "ok":
+                out.append({"cfg": scene.cfg("exchange"), "ev": [rf.blank(st, kind="step")],
+                            "meta": {"kind": "step", "scenario": label}, "stimulus": {"scenario": label, "exception": str(val)}})
+                break
+        rec.stop()
+        out.extend(rec.take(stimulus={"scenario": label, "kind": tag}))
+
+    steps("3 steps")
+    out.extend(run_exchanges(rec, lambda s, d: (game, scene), hosts, ["ping"], label, chk, perm_all=False))
+    steps("3 steps after the pings")
+    if via_env:
+        env.close()
     return out
